@@ -62,6 +62,30 @@ impl Ctx {
                     if *cnt <= 3 {
                         self.rep.note(format!("worker death ({}): case {:?} :: {}", k, c.text.chars().take(200).collect::<String>(), d.chars().take(600).collect::<String>()));
                     }
+                    let flagged = c.apis.iter().any(|a| a == CYCLIC_DEEP);
+                    if k == "stack" && flagged {
+                        // a tiny program over a cyclic / nested value tore the host process down:
+                        // worse than a panic. (The property text excludes native-stack exhaustion
+                        // from *unbounded recursion in the script*; here the recursion is the
+                        // runtime's own traversal of a finite value, so it is reported.)
+                        let site = Site { file: "<abort>".into(), function: "native-stack-overflow".into() };
+                        let key = format!("<abort>::native-stack-overflow via {:?}", c.apis.first());
+                        *self.sites_seen.entry(key.clone()).or_insert(0) += 1;
+                        match attribute(&self.known, &site, "stack overflow", &c.apis) {
+                            Some(id) => {
+                                let e = self.known_hits.entry(id).or_insert((0, c.text.clone()));
+                                e.0 += 1;
+                            }
+                            None => {
+                                let n = self.new_sites.entry(key).or_insert(0);
+                                *n += 1;
+                                if *n == 1 {
+                                    self.rep.violation("D", "C06:abort-native-stack", json!({"input": c.text, "input_hex": kvh::hex(c.text.as_bytes()), "kind": c.kind.to_string(), "apis": c.apis,
+                                        "detail": d.chars().take(800).collect::<String>(), "note": "the worker process was aborted by a native stack overflow while the runtime traversed a cyclic / nested value"}));
+                                }
+                            }
+                        }
+                    }
                     if k == "abort" {
                         // neither memory nor stack exhaustion: the host process was torn down
                         let key = format!("abort::{}", d.chars().take(120).collect::<String>());
@@ -333,6 +357,13 @@ fn replay_known(cx: &mut Ctx) {
                         other.push(format!("{}::{} [{}]", site.file, site.function, p.msg));
                     }
                 }
+            }
+        }
+        if let Outcome::Died(dd) = &outs[0] {
+            if classify_death(dd) == "stack" && k.sites.iter().any(|s| s.0 == "<abort>") {
+                hit = true;
+            } else {
+                other.push(format!("worker died: {}", dd.chars().take(120).collect::<String>()));
             }
         }
         cx.rep.case(&c.text, true);
